@@ -434,7 +434,7 @@ func ruleAugLeftover(c *Ctx) []Obligation {
 	con := "pending augments are reported after the retry loop"
 	var final *ssa.Call
 	var retry *ssa.Call
-	for _, ci := range c.callsTo(proc, aug) {
+	for _, ci := range c.callsToDeep(proc, aug) {
 		if call, okc := ci.(*ssa.Call); okc && len(call.Call.Args) == 2 {
 			if k, okk := call.Call.Args[1].(*ssa.Const); okk && k.Value != nil {
 				if k.Value.String() == "true" {
@@ -450,14 +450,31 @@ func ruleAugLeftover(c *Ctx) []Obligation {
 	}
 	h := loopHeaderOf(final.Block())
 	okAll := h != nil
+	// where the two passes happen in Process itself (the call of the helper, if they were extracted)
+	finalAt, retryAt := ssa.Instruction(final), ssa.Instruction(nil)
+	if l := liftAll(final, proc, 0); len(l) == 1 {
+		finalAt = l[0]
+	}
+	if retry != nil {
+		retryAt = retry
+		if l := liftAll(retry, proc, 0); len(l) == 1 {
+			retryAt = l[0]
+		}
+	}
 	eachInstr(proc, func(in ssa.Instruction) {
 		r, isr := in.(*ssa.Return)
 		if !isr || h == nil {
 			return
 		}
 		// only the returns reachable after the retry loop matter
-		if retry != nil && reaches(retry, r) && !h.Dominates(r.Block()) {
-			okAll = false
+		if retryAt != nil && retryAt.Parent() == proc && reaches(retryAt, r) {
+			if final.Parent() == proc {
+				if !h.Dominates(r.Block()) {
+					okAll = false
+				}
+			} else if !dominates(finalAt, r) {
+				okAll = false // the helper holding the reporting loop is not called on this path
+			}
 		}
 	})
 	// the loop ranges over the pending slice: the same variable the retry loop shrinks
@@ -470,7 +487,7 @@ func ruleAugLeftover(c *Ctx) []Obligation {
 			}
 			backSlice(start, func(x ssa.Value) bool {
 				if ia, ok2 := x.(*ssa.IndexAddr); ok2 {
-					v = ia.X
+					v = resolveArg(ia.X)
 					return false
 				}
 				return true
@@ -775,7 +792,7 @@ func ruleNsRoot(c *Ctx) []Obligation {
 	fMods := FieldVar(mods, "Modules")
 	con := "Namespace(): a submodule root is mapped to its owning module before its namespace is read"
 	okk := false
-	eachInstr(ns, func(in ssa.Instruction) {
+	c.eachInstrDeep(ns, func(in ssa.Instruction) {
 		l, okl := in.(*ssa.Lookup)
 		if !okl {
 			return
